@@ -88,8 +88,12 @@ def _run(prog):
                 by_id.append([i, r])
             o["by_id"] = by_id
             by_name = []
+            try:
+                current = lib_names(name)
+            except Exception:  # noqa: BLE001
+                current = []
             for n in used:
-                if (n in vars(Tags) or hasattr(_PLAIN_MODULE, n) or (n in vars(Tags.TagLibrary()) and n not in lib_names(name))) if g \
+                if (n in vars(Tags) or hasattr(_PLAIN_MODULE, n) or (n in vars(Tags.TagLibrary()) and n not in current)) if g \
                         else reserved(name, n):
                     continue        # resolves to the library object's (the module object's) own attribute: not a tag lookup
                 try:
